@@ -243,6 +243,44 @@ def _merge(shard, X, ChannelStats, res, only):
                 if _verify(t, X, mode, res, case, "ChannelStats.__add__"):
                     res.outcome("merge3/ok")
                     res.nontrivial += 1
+    # large accumulators (millions of samples per side): the merge formulas contain count**2 and count**3
+    if C == 1 and shard["cls"] in ("wide", "eightbit"):
+        for nbig, sbig in ((300_000, 100_000), (3_000_000, 1_500_000), (5_000_000, 1_000_000)):
+            inner = ["merge_big", nbig, sbig]
+            if only is not None and inner != only:
+                continue
+            res.evaluations += 1
+            case = {"shard": shard, "inner": inner}
+            rng = np.random.default_rng([7, nbig])
+            xb = np.concatenate([rng.normal(10, 3, sbig), rng.normal(30, 5, nbig - sbig)]).astype(np.float32)
+            try:
+                a = ChannelStats(1, sbig)
+                a.push_data(xb[:sbig].copy(), 0, mode=mode)
+                b = ChannelStats(1, nbig - sbig)
+                b.push_data(xb[sbig:].copy(), 0, mode=mode)
+                c = a + b
+            except Exception as e:  # noqa: BLE001
+                res.violation({"site": "ChannelStats.__add__", "symptom": f"raised {type(e).__name__}", "mode": mode}, case, repr(e))
+                continue
+            Y = xb.astype(np.float64)
+            m = Y.mean()
+            d = Y - m
+            v = (d**2).mean()
+            bad = []
+            if int(c.moments["count"][0]) != nbig or float(c.minima[0]) != float(xb.min()) or float(c.maxima[0]) != float(xb.max()):
+                bad.append("count/min/max")
+            if abs(float(c.mean[0]) - m) > 1e-3 * abs(m) or abs(float(c.var[0]) - v) > 1e-3 * v:
+                bad.append(f"mean {float(c.mean[0])!r}/{m!r} var {float(c.var[0])!r}/{v!r}")
+            if mode == "full":
+                sk, ku = (d**3).mean() / v**1.5, (d**4).mean() / v**2 - 3
+                if not np.isfinite(c.skew[0]) or abs(float(c.skew[0]) - sk) > 1e-2 or not np.isfinite(c.kurtosis[0]) or abs(float(c.kurtosis[0]) - ku) > 1e-2:
+                    bad.append(f"skew {float(c.skew[0])!r}/{sk!r} kurtosis {float(c.kurtosis[0])!r}/{ku!r}")
+            if bad:
+                res.violation({"site": "ChannelStats.__add__", "symptom": "merged statistics of large accumulators differ from two-pass float64", "mode": mode}, case,
+                              f"{nbig} samples split at {sbig}: " + "; ".join(bad))
+                continue
+            res.outcome("merge2/ok")
+            res.nontrivial += 1
     res.count("transitions", 0)
     res.sample({"shard": shard, "example": ["merge3", 2, 5, "a+(b+c)"]}, cap=1)
 
